@@ -139,7 +139,7 @@ impl Prop for Stalled {
     }
 
     fn gen(&self, src: &mut Src) -> Case {
-        let timeout_ms = *src.pick(&[500u64, 2_000, 5_000]);
+        let timeout_ms = *src.pick(&[500u64, 2_000, 5_000, 500, 2_000, 0]);
         let n_waves = 1 + src.below(3);
         let waves = (0..n_waves).map(|_| (0..1 + src.below(4)).map(|_| gen_req(src, timeout_ms)).collect()).collect();
         Case { timeout_ms, waves }
@@ -161,7 +161,7 @@ impl Prop for Stalled {
     }
 
     fn rule(&self) -> &'static str {
-        "1-3 waves of 1-4 concurrent requests from a real RpcClient with a timeout T in {0.5,2,5 s} (obtained by new+set_timeout, \
+        "1-3 waves of 1-4 concurrent requests from a real RpcClient with a timeout T in {0,0.5,2,5 s} (obtained by new+set_timeout, \
          by cloning a configured client once or twice, or by replacing an earlier timeout; sent with send, send_owned or a \
          context with a header) to a real server \
          state over the in-process transport; per request a generated fate: deliver, reply head at once but body \
